@@ -15,7 +15,7 @@ from ..core import B, outcome
 from .c03 import le
 
 
-def build(kind, m, n, rng, nin=2, global_xpubs=True):
+def build(kind, m, n, rng, nin=2, global_xpubs=True, onecos_input=False):
     from buidl import hd
     from buidl.psbt import PSBT, NamedHDPublicKey
     from buidl.tx import Tx, TxIn, TxOut
@@ -52,7 +52,13 @@ def build(kind, m, n, rng, nin=2, global_xpubs=True):
     W.update({"named": named, "script_for": script_for, "pubkey_lookup": pubkey_lookup, "redeem_lookup": redeem_lookup, "witness_lookup": witness_lookup, "tx_lookup": tx_lookup})
     prev_outs = []
     for j in range(nin):
-        _, spk = script_for([named(r, "%s/0/%d" % (base, j)) for r in roots], m)
+        if onecos_input and j == 0:
+            # a real coin whose script holds n child keys of ONE cosigner (correctly committed, correctly derived): as an input it is
+            # whoever's coin it is; as the destination of an output it is not this wallet's change
+            _, spk = script_for([named(roots[0], "%s/0/%d" % (base, 50 + k_)) for k_ in range(n)], m)
+            W["onecos_spk"] = spk
+        else:
+            _, spk = script_for([named(r, "%s/0/%d" % (base, j)) for r in roots], m)
         prev_outs.append(TxOut(rng.choice([60000, 2 ** 33 + 7, 123456]) + j, spk))
     prev = Tx(1, [TxIn(rb(32), 0)], prev_outs, 0, network="testnet")
     tx_lookup[prev.hash()] = prev
@@ -180,6 +186,14 @@ def apply_tamper(W, name, rng):
         po.tx_out.script_pubkey = spk
         ps.tx_obj.tx_outs[1].script_pubkey = spk
         outs[1]["spk"]["shape"] = name.split("-")[0]
+    elif name == "pay-back-to-one-cosigner-input":
+        # an output without any metadata pays to the script of an input that holds n keys of one cosigner
+        to = TxOut(1500, W["onecos_spk"])
+        ps.tx_obj.tx_outs[1].amount -= 1500
+        ps.tx_obj.tx_outs.append(to)
+        ps.psbt_outs.append(PSBTOut(to))
+        tags = ["chg", "alt", "alt2", "alt3", "alt4"]
+        outs.append({"spk": {"m": m, "keys": [[1, tags[k]] for k in range(n)]}, "named": []})
     elif name == "two-spends-one-address":
         # an honest batch that pays the same outside address twice: the sums must still hold
         dup = TxOut(ps.tx_obj.tx_outs[0].amount + 777, ps.tx_obj.tx_outs[0].script_pubkey)
@@ -277,7 +291,7 @@ def apply_tamper(W, name, rng):
     return outs, ok_inputs
 
 
-TAMPERS = ["none", "backdoor-script", "nslot-script", "change-quorum-up", "two-spends-one-address", "input-stray-witness-script", "two-from-one-cosigner", "input-derivation-path-of-another-input", "swap-spk", "swap-spk-p2pkh", "swap-spk-p2wpkh", "swap-spk-p2sh", "swap-spk-p2wsh", "swap-spk-p2tr", "second-change-first", "second-change-middle", "foreign-script", "foreign-script-named", "one-cosigner", "wrong-path", "foreign-xfp", "change-quorum", "second-change",
+TAMPERS = ["none", "pay-back-to-one-cosigner-input", "backdoor-script", "nslot-script", "change-quorum-up", "two-spends-one-address", "input-stray-witness-script", "two-from-one-cosigner", "input-derivation-path-of-another-input", "swap-spk", "swap-spk-p2pkh", "swap-spk-p2wpkh", "swap-spk-p2sh", "swap-spk-p2wsh", "swap-spk-p2tr", "second-change-first", "second-change-middle", "foreign-script", "foreign-script-named", "one-cosigner", "wrong-path", "foreign-xfp", "change-quorum", "second-change",
            "spend-as-change", "input-foreign-script", "input-wrong-derivation", "input-foreign-xfp", "input-altered-prev-tx", "input-quorum-mismatch"]
 
 
@@ -291,7 +305,7 @@ def one_job(args):
     rng = random.Random(seed + 7)
     cases = []
     for mode in ("object", "reparsed"):
-        W = build(kind, m, n, random.Random(seed + wi), global_xpubs=global_xpubs)
+        W = build(kind, m, n, random.Random(seed + wi), global_xpubs=global_xpubs, onecos_input=(tname == "pay-back-to-one-cosigner-input"))
         t = outcome(apply_tamper, W, tname, rng)
         if t[0] != "ok" or t[1] is None:
             continue
@@ -365,9 +379,9 @@ def run(ctx):
     cases = []
     from concurrent.futures import ProcessPoolExecutor
     from ..core import NCPU
-    with ProcessPoolExecutor(max_workers=NCPU) as ex:
-        for res in ex.map(one_job, jobs):
-            cases += res
+    from ..core import pool_map
+    for res in pool_map(ctx, one_job, jobs):
+        cases += res
     for c in cases:
         ctx.nontriv((c["kind_"], c["m"], c["n"], c["tamper"], c["id"].split(".")[-1], c["res"]))
     byid = {c["id"]: c for c in cases}
